@@ -547,6 +547,8 @@ impl Writer {
           write_options,
           sequence_number,
         } => {
+          #[cfg(rustdds_verif)]
+          crate::verif::hooks::yield_point(40);
           // Signal that there is now space in the DataWriter to Writer queue
           {
             self
@@ -557,6 +559,8 @@ impl Writer {
               .map(|w| w.wake_by_ref());
           }
 
+          #[cfg(rustdds_verif)]
+          crate::verif::hooks::yield_point(41);
           // Insert data to local HistoryBuffer
           let timestamp =
             self.insert_to_history_buffer(dds_data, write_options.clone(), sequence_number);
